@@ -265,11 +265,11 @@ def generate(ctx):
     rng = ctx.rng
     big = ctx.n(9, 12)
     cases = _corpus()
-    for _ in range(ctx.n(520, 7000)):
+    for _ in range(ctx.n(1500, 15000)):
         cases.append(_ilm_case(rng, big))
-    for _ in range(ctx.n(330, 5000)):
+    for _ in range(ctx.n(1000, 10000)):
         cases.append(_rm_case(rng, big, True))
-    for _ in range(ctx.n(170, 3000)):
+    for _ in range(ctx.n(500, 5000)):
         cases.append(_rm_case(rng, big, False))
     for c in cases:
         ctx.count(c["fn"])
